@@ -25,6 +25,13 @@ var longBatchItems = []string{
 	"SELECT a FROM t WHERE NOT NOT NOT a", "SELECT a FROM t WHERE MATCH(a) AGAINST ('x')", "SELECT a[1][2] FROM t",
 }
 
+var nearDuplicateItems = []string{
+	"SELECT 'a b' FROM t", "SELECT 'a  b' FROM t", "SELECT 'a\tb' FROM t", "SELECT 'a\nb' FROM t", "SELECT 'a b'  FROM   t", "SELECT\n'a b'\nFROM\tt", "select 'a b' from t", "SELECT 'A B' FROM t",
+	"SELECT \"c d\" FROM t", "SELECT \"c  d\" FROM t", "SELECT \"C d\" FROM t", "SELECT `e f` FROM t", "SELECT `e  f` FROM t",
+	"SELECT a -- x\n FROM t", "SELECT a -- x\n, b FROM t", "SELECT a /* x */ FROM t", "SELECT a /*  x  */ FROM t", "SELECT a FROM t", "SELECT a  FROM t", "SELECT a FROM t WHERE b = ' '", "SELECT a FROM t WHERE b = '  '",
+	"SELECT a FROM t WHERE b = ''", "SELECT $$a b$$ FROM t", "SELECT $$a  b$$ FROM t", "SELECT 1", "SELECT 1 ", "SELECT 1;", "SELECT 1 ;",
+}
+
 // loopsCase: tokens of one input with the oracle table of the real parseStatement at every position
 type loopsCase struct {
 	toks  []token.Token
@@ -156,6 +163,7 @@ func c07Inputs(c *runCtx, n int) []string {
 	inputs = append(inputs, lexicalGarbage...)
 	inputs = append(inputs, "\uFEFFSELECT a FROM t", "\uFEFFSELECT FROM WHERE", "\uFEFF", "\u00a0SELECT 1", "\u200bSELECT 1", "\x00SELECT 1", "\r\nSELECT 1\r\n", "\tSELECT\t1\t", "\ufeff\ufeffSELECT 1",
 		"SELECT a FROM t LIMIT 5, 10", "SELECT a FROM t LIMIT 10 OFFSET 5;", "SELECT `a` FROM `t`", ";; SELECT 1", "SELECT 1;;", "; SELECT 1 ; ; SELECT 2 ;", "SELECT 1 SELECT 2", "SELECT a FROM t; garbage here; SELECT b FROM u",
+		"/* only a comment */", "-- only a comment", "/* a */ /* b */", "/* a */ -- b", "--\n--\n", "/* header */ SELECT FROM /* trailer */", "/* h */ SELECT 1 /* t */", "/* h */ SELECT 'x /* t */",
 		"SELECT a FROM t WHERE; SELECT 1", "SHOW TABLES; DESCRIBE t; EXPLAIN SELECT 1; REPLACE INTO t (a) VALUES (1)", "SELECT 1; SELECT FROM; SELECT 'unterminated")
 	g := newSQLGen(c.rng.Fork())
 	for i := 0; i < n; i++ {
@@ -180,6 +188,12 @@ func c07Inputs(c *runCtx, n int) []string {
 			in = ";" + in
 		}
 		inputs = append(inputs, in)
+		// the same input between comments and blank lines: comments are layout for every entry point alike
+		if c.rng.Chance(30) {
+			pre := c.rng.Pick([]string{"/* header */ ", "/* a */ /* b */\n", "-- c\n", "--\n", "\n\n", "/**/", ""})
+			post := c.rng.Pick([]string{" /* trailer */", " /**/", " -- t", "\n-- t\n", "\n/* t */\n", " /* a */ /* b */", ""})
+			inputs = append(inputs, pre+in+post)
+		}
 	}
 	return inputs
 }
@@ -367,7 +381,14 @@ func runC07(c *runCtx) {
 			k = 150 + c.rng.Intn(150) // a long batch on the one parser the batch call reuses
 		}
 		qs := make([]string, k)
+		nearDup := round%5 == 2
 		for i := range qs {
+			if nearDup {
+				// items that differ only where blanks, case or line ends are significant (inside literals and quoted
+				// identifiers, at the end of a line comment), next to exact repeats and pure re-layouts
+				qs[i] = nearDuplicateItems[c.rng.Intn(len(nearDuplicateItems))]
+				continue
+			}
 			if k >= 150 {
 				qs[i] = longBatchItems[(round+i)%len(longBatchItems)]
 				continue
